@@ -152,7 +152,41 @@ def r5(cx):
         if not conv: conv = [x for x in body.calls("=from") if "ErrorKind" in (x.callee.impl_self or x.callee.resolved) and body.ty_is(x.args[0].place.l, "Reply")] if True else []
         if not conv or not all(x.bb in cfg.after(has_err) for x in conv): why.append("the error edge does not build its error with ErrorKind::from(reply)")
         if any(o in cfg.after(has_err) for o in oks): why.append("the error edge can still return Ok")
+    if why and _r5_by_evaluation(body, cfg, du): why = []
     cx.check(not why, "C07.R5", "varlink:recv:success-iff-no-error", body.sp, "; ".join(sorted(set(why))), note_ok="reply.error.is_some() ? Err(ErrorKind::from(reply)) : Ok(parameters)")
+
+
+def _r5_by_evaluation(body, cfg, du):
+    """recv() run from the parsed reply with `error` seeded: present -> every return is Err and went through ErrorKind::from(reply);
+    absent -> no path converts the reply into an error and some path can return Ok"""
+    from vlib import absval
+    from vlib.cfg import enumerate_paths
+    fs = body.calls("serde_json::from_slice")
+    if len(fs) != 1 or fs[0].dest is None or fs[0].dest.p or fs[0].target is None: return False
+    conv = {x.bb for x in body.calls("=from") if "ErrorKind" in (x.callee.resolved + str(x.callee.impl_self or "")) and x.args and x.args[0].place is not None and body.ty_is(x.args[0].place.l, "Reply")}
+    if not conv: return False
+    for present in (True, False):
+        ev = ("var", 1, (None,)) if present else ("var", 0, ())
+        rv = absval.struct_value("Reply", {"error": ev})
+        if rv is None: return False
+        env0 = {fs[0].dest.l: ("var", 0, (rv,))}
+        hit = [False]
+        paths = enumerate_paths(cfg, fs[0].target, lambda blk: blk.term.kind == "return", du=du, env0=env0, on_limit=lambda: hit.__setitem__(0, True))
+        if hit[0]: return False
+        n = 0; can_ok = False
+        for p in paths:
+            if p[-1] < 0 or body.blocks[p[-1]].term.kind != "return": continue
+            n += 1
+            st = None
+            for kind, b, obj, store in absval.walk(body, du, cfg, p, env0=env0): st = store
+            v = st.get(0) if st else None
+            is_err = v is not None and v[0] == "var" and v[1] == 1
+            through = any(b in conv for b in p)
+            if present and not (is_err and through): return False
+            if not present and through: return False
+            if not is_err: can_ok = True
+        if n == 0 or (not present and not can_ok): return False
+    return True
 
 
 def _closures_of(cx, body):
